@@ -28,7 +28,8 @@ SPS_RESAMP = 128
 STEP = 1.0 / SPS_RESAMP
 R = 1e9
 
-PATTERNS = ['prbs7:64', 'prbs7:128', 'prbs9:128', 'rand0:64', 'rand1:128', 'rand2:128']
+# last two: legal random patterns with one RARE symbol (a 16-PPM frame stream: 1 mark in 16 slots; 6 % isolated spaces)
+PATTERNS = ['prbs7:64', 'prbs7:128', 'prbs9:128', 'rand0:64', 'rand1:128', 'rand2:128', 'ppm16:128', 'spaces6:128']
 SPS = [8, 16, 32]
 LEVELS = [(0.0, 1.0), (0.0, 1e-3), (0.0, 100.0), (5.0, 6.0), (-50.0, 50.0), (2e-4, 1.2e-3)]
 SIGMA_PCT = [0.5, 1.0, 2.0, 5.0]
@@ -65,6 +66,16 @@ def pattern_bits(name, seed):
     if kind.startswith('prbs'):
         order = int(kind[4:])
         bits = _lfsr(order, PRBS_TAPS[order], n)
+    elif kind == 'ppm16':
+        rs = np.random.RandomState((seed * 1000003 + 104729) % (2 ** 32))
+        bits = np.zeros(n, dtype=np.uint8)
+        for f in range(n // 16):
+            bits[f * 16 + rs.randint(0, 16)] = 1
+    elif kind == 'spaces6':
+        rs = np.random.RandomState((seed * 1000003 + 130363) % (2 ** 32))
+        bits = np.ones(n, dtype=np.uint8)
+        for f in range(n // 16):                      # one isolated space per 16-slot frame, never on a frame edge
+            bits[f * 16 + rs.randint(2, 14)] = 0
     else:
         k = int(kind[4:])
         bits = np.random.RandomState((seed * 1000003 + 7919 * (k + 1)) % (2 ** 32)).randint(0, 2, n).astype(np.uint8)
@@ -134,7 +145,7 @@ def amp_class(pp):
 
 
 # ------------------------------------------------------------------ oracle: bands of the statement
-def check_bands(out, a, b, sigma, sps, tag):
+def check_bands(out, a, b, sigma, sps, tag, rare=()):
     d = b - a
     cls = amp_class(d)
     v = []
@@ -149,7 +160,10 @@ def check_bands(out, a, b, sigma, sps, tag):
     if ok('mu1') and abs(val['mu1'] - b) > BAND_MU * d:
         v.append((f'eye:mu1-band:{cls}', f'|mu1-b|={abs(val["mu1"]-b):g} > 8%(b-a)={BAND_MU*d:g}; {ctxt}'))
     for s in ('s0', 's1'):
-        if ok(s):
+        # The spread of a symbol that occupies fewer than 24 slots is estimated from fewer than 24 independent samples: its
+        # sample standard deviation scatters by ~1/sqrt(2(n-1)) > 15 % and leaves the sigma/2 band by chance (measured 0.0096
+        # vs 0.01 on a correct tree), so the spread clause is only asserted for symbols with at least 24 slots.
+        if ok(s) and s not in rare:
             lo, hi = BAND_S_LO * sigma, BAND_S_HI[0] * sigma + BAND_S_HI[1] * d
             if val[s] < lo:
                 v.append((f'eye:{s}-low:{cls}', f'{s}={val[s]:g} < sigma/2={lo:g}; {ctxt}'))
@@ -232,7 +246,9 @@ def eye_case(case):
     assert bits.min() == 0 and bits.max() == 1 and ntrans >= 15, 'pattern alphabet member is degenerate'
     tag = f'{pat} sps={sps} kseed={kseed} stream={stream}'
     base = call_eye(x, sps, kseed)
-    viol = check_bands(base, a, b, sigma, sps, tag)
+    n1 = int(bits.sum()); n0 = int(bits.size - n1)
+    rare = tuple(s for s, n in (('s0', n0), ('s1', n1)) if n < 24)
+    viol = check_bands(base, a, b, sigma, sps, tag, rare)
     obs = [canon(base)]
     ncalls = 1
     xmax = float(np.max(np.abs(x)))
